@@ -31,6 +31,9 @@ func (p ctxParams) name() string {
 	if p.cause == context.DeadlineExceeded {
 		c = "deadline"
 	}
+	if p.cause == error(appCause) {
+		c = "canceled-with-cause"
+	}
 	if p.pre {
 		c = "pre-" + c
 	}
@@ -176,8 +179,8 @@ func ctxScenario(p ctxParams) func() {
 				// every node answered with a reply or an error before the context ended
 			case (p.state == "down" || p.state == "crashed") && p.kind == "GRPCCall" && status.Code(rerr) == codes.Unavailable:
 				// the node's own failure was reported before (or together with) the context's end
-			case !errors.Is(rerr, p.cause):
-				fail("C08/error-mismatch", key, "%s: the call reports %v, which does not match the context's error %v", name, rerr, p.cause)
+			case !errors.Is(rerr, ctxErrOf(p.cause)):
+				fail("C08/error-mismatch", key, "%s: the call reports %v, which does not match the context's error %v", name, rerr, ctxErrOf(p.cause))
 			}
 		}
 		mc.Outcome("returned err=%v", rerr != nil)
@@ -204,8 +207,11 @@ func ctxInstances(tier string) []Instance {
 				if st == "abandoned-stream" && buf == 1 && !thorough(tier) {
 					continue
 				}
-				for _, cause := range []error{context.Canceled, context.DeadlineExceeded} {
+				for _, cause := range []error{context.Canceled, context.DeadlineExceeded, appCause} {
 					for _, pre := range []bool{false, true} {
+						if cause == error(appCause) && (pre || st != "silent" || buf != 0) {
+							continue
+						}
 						if pre && cause == context.DeadlineExceeded && !thorough(tier) {
 							continue
 						}
@@ -230,7 +236,7 @@ func ctxInstances(tier string) []Instance {
 
 func init() {
 	register(&Check{ID: "C08",
-		Rule:        "9 call variants (12 thorough) x node-1 state {down at creation, crashed after it was connected (reconnect and back-off in progress), silent (handler never returns), window full (this call's write blocks), sender busy (an earlier message with a never-ending context is stuck in the write, this call queues behind it), an earlier server-stream call abandoned by an adversary thread while the servers stream} x send buffer {0,1(,2)} x context end {Canceled, DeadlineExceeded} x {already ended before the call, ended by an adversary thread placed by the explorer at every instant within the deviation bound: before queuing, while queued, while being written, while waiting}; oracle (strict, untimed): at quiescence after the context ended - no timer fired, no handler returned - the call has returned / its future or correctable is done, and a reported error matches the context's error under errors.Is; an outcome is (instance, returned, error reported)",
+		Rule:        "9 call variants (12 thorough) x node-1 state {down at creation, crashed after it was connected (reconnect and back-off in progress), silent (handler never returns), window full (this call's write blocks), sender busy (an earlier message with a never-ending context is stuck in the write, this call queues behind it), an earlier server-stream call abandoned by an adversary thread while the servers stream} x send buffer {0,1(,2)} x context end {Canceled, DeadlineExceeded, cancelled with a cause (silent state)} x {already ended before the call, ended by an adversary thread placed by the explorer at every instant within the deviation bound: before queuing, while queued, while being written, while waiting}; oracle (strict, untimed): at quiescence after the context ended - no timer fired, no handler returned - the call has returned / its future or correctable is done, and a reported error matches the context's error under errors.Is; an outcome is (instance, returned, error reported)",
 		Gen:         ctxInstances,
 		Assumptions: []string{"'promptly' is decided in its untimed form: completion by library-internal steps only, without any timer expiry or further message", "transport window 1 so that a non-reading server blocks the second unread write"},
 	})
